@@ -234,8 +234,8 @@ class DataCollection:
                 if self.write_to_disk.wait(0.5):
                     for ds in self.datasets:
                         ds.write()
-                    self.write_to_disk.clear()
                     self.write_finished.set()
+                    self.write_to_disk.clear()
         except KeyboardInterrupt:
             pass
         finally:
@@ -246,5 +246,5 @@ class DataCollection:
         if self.write_to_disk.wait(0.5):
             for ds in self.datasets:
                 ds.write()
-            self.write_to_disk.clear()
             self.write_finished.set()
+            self.write_to_disk.clear()
